@@ -6,240 +6,9 @@ verus! {
 //@include common/prelude.vrs
 //@include common/byte_io.vrs
 
-// ---- specifications written from the protobuf encoding documentation (not from this code)
-pub open spec fn enc(v: nat) -> Seq<u8> decreases v {
-	if v < 128 { seq![v as u8] } else { seq![((v % 128) + 128) as u8] + enc(v / 128) }
-}
-// sint64 "ZigZag" mapping, the two formulas of the protobuf encoding guide: (n << 1) ^ (n >> 63) and (n >>> 1) ^ -(n & 1)
-pub open spec fn zigzag(v: i64) -> u64 { ((v << 1) ^ (v >> 63)) as u64 }
-pub open spec fn unzigzag(u: u64) -> i64 { ((u >> 1) as i64) ^ (if u & 1 == 1 { -1i64 } else { 0i64 }) }   // >>> is a logical shift
-// value decoded from k bytes starting at p: little-endian base-128 groups (bits beyond 64 are dropped, as protobuf decoders do)
-pub open spec fn dec_groups(d: Seq<u8>, p: int, k: nat) -> u64 decreases k {
-	if k == 0 { 0u64 } else { dec_groups(d, p, (k - 1) as nat) | (((d[p + k - 1] as u64) & 0x7F) << ((7 * (k - 1)) as u64)) }
-}
-
-// ---- reader (R6: ValueReaderSlice<'a, E> -> cursor + len)
-pub struct ValueReaderSlice { pub cursor: AbsCursor, pub len: u64 }
-impl ValueReaderSlice {
-	// (a slice never exceeds isize::MAX bytes: std guarantee, part of the type invariant)
-	pub open spec fn wf(&self) -> bool { self.len == self.cursor.data@.len() && self.cursor.pos <= self.len && self.len <= 0x7fff_ffff_ffff_ffff }
-	pub open spec fn rest(&self) -> int { self.len - self.cursor.pos }
-
-	pub fn len(&self) -> (r: u64) ensures r == self.len { self.len }                       // verbatim: `self.len`
-	pub fn position(&mut self) -> (r: u64) ensures r == old(self).cursor.pos, *final(self) == *old(self) { self.cursor.position() }   // verbatim: `self.cursor.position()`
-
-//@extract fn file="versatiles_core/src/io/value_reader.rs" scope="trait ValueReader<'a, E: ByteOrder + 'a>" name="remaining"
-//@ret r
-//@spec
-		requires old(self).wf()
-		ensures r == old(self).rest(), *final(self) == *old(self)
-//@end
-//@extract fn file="versatiles_core/src/io/value_reader.rs" scope="trait ValueReader<'a, E: ByteOrder + 'a>" name="has_remaining"
-//@ret r
-//@spec
-		requires old(self).wf()
-		ensures r == (old(self).rest() > 0), *final(self) == *old(self)
-//@end
-//@extract fn file="versatiles_core/src/io/value_reader_slice.rs" scope="impl<'a, E: ByteOrder + 'a> ValueReader<'a, E> for ValueReaderSlice<'a, E>" name="set_position"
-//@ret r
-//@spec
-		requires old(self).wf()
-		ensures final(self).wf(), final(self).cursor.data@ == old(self).cursor.data@,
-			r is Ok <==> position < old(self).len, r is Ok ==> final(self).cursor.pos == position, r is Err ==> *final(self) == *old(self)
-//@end
-//@extract fn file="versatiles_core/src/io/value_reader.rs" scope="trait ValueReader<'a, E: ByteOrder + 'a>" name="read_varint"
-//@rewrite "self.get_reader().read_u8()" => "self.cursor.read_u8()" R7
-//@ret r
-//@spec
-		// arbitrary bytes: Ok or Err, no shift overflow, at most 10 bytes consumed, terminates (C19)
-		requires old(self).wf()
-		ensures final(self).wf(), final(self).cursor.data@ == old(self).cursor.data@, final(self).len == old(self).len,
-			old(self).cursor.pos <= final(self).cursor.pos <= old(self).cursor.pos + 10,
-			// decoding rule: k bytes were consumed, all but the last carry the continuation bit, value = their 7-bit groups
-			r is Ok ==> ({ let k = final(self).cursor.pos - old(self).cursor.pos; let d = old(self).cursor.data@; let p = old(self).cursor.pos as int;
-				1 <= k <= 10 && r.unwrap() == dec_groups(d, p, k as nat)
-				&& d[p + k - 1] & 0x80 == 0 && forall|j: int| p <= j < p + k - 1 ==> (#[trigger] d[j]) & 0x80 != 0 }),
-//@at "loop {"
-		let ghost p0 = self.cursor.pos as int;
-		let ghost d = self.cursor.data@;
-//@loop 1
-			invariant_except_break 0 <= shift <= 63, shift % 7 == 0, self.cursor.pos == p0 + shift / 7,
-				value == dec_groups(d, p0, (shift / 7) as nat),
-				forall|j: int| p0 <= j < p0 + shift / 7 ==> (#[trigger] d[j]) & 0x80 != 0,
-			invariant self.wf(), self.cursor.data@ == d, d == old(self).cursor.data@, p0 == old(self).cursor.pos, self.len == old(self).len,
-			ensures p0 + 1 <= self.cursor.pos <= p0 + 10, value == dec_groups(d, p0, (self.cursor.pos - p0) as nat),
-				d[self.cursor.pos - 1] & 0x80 == 0, forall|j: int| p0 <= j < self.cursor.pos - 1 ==> (#[trigger] d[j]) & 0x80 != 0,
-			decreases 70 - shift
-//@after "value |= ((byte as u64) & 0x7F) << shift;"
-			proof { assert(7 * (shift / 7) == shift); }
-//@end
-//@extract fn file="versatiles_core/src/io/value_reader.rs" scope="trait ValueReader<'a, E: ByteOrder + 'a>" name="read_svarint"
-//@ret r
-//@spec
-		requires old(self).wf()
-		ensures final(self).wf(), final(self).cursor.data@ == old(self).cursor.data@, final(self).len == old(self).len,
-			old(self).cursor.pos <= final(self).cursor.pos <= old(self).cursor.pos + 10,
-			r is Ok ==> r.unwrap() == unzigzag(dec_groups(old(self).cursor.data@, old(self).cursor.pos as int, (final(self).cursor.pos - old(self).cursor.pos) as nat)),
-//@at "Ok(((value >> 1) as i64)"
-		proof { assert((value & 1) == 0 || (value & 1) == 1) by (bit_vector); assert(-1i64 == -(1i64));
-			assert((value >> 1) <= 0x7fff_ffff_ffff_ffffu64) by (bit_vector); }
-//@end
-//@extract fn file="versatiles_core/src/io/value_reader.rs" scope="trait ValueReader<'a, E: ByteOrder + 'a>" name="read_pbf_key"
-//@ret r
-//@spec
-		requires old(self).wf()
-		ensures final(self).wf(), final(self).cursor.data@ == old(self).cursor.data@, final(self).len == old(self).len,
-			old(self).cursor.pos <= final(self).cursor.pos <= old(self).cursor.pos + 10,
-			r is Ok ==> ({ let v = dec_groups(old(self).cursor.data@, old(self).cursor.pos as int, (final(self).cursor.pos - old(self).cursor.pos) as nat);
-				r.unwrap().0 == ((v >> 3) as u32) && r.unwrap().1 == (v & 0x07) as u8 && r.unwrap().1 < 8 }),
-//@at "Ok(((value >> 3) as u32"
-		proof { assert((value & 0x07) < 8) by (bit_vector); }
-//@end
-//@extract fn file="versatiles_core/src/io/value_reader_slice.rs" scope="impl<'a, E: ByteOrder + 'a> ValueReader<'a, E> for ValueReaderSlice<'a, E>" name="get_sub_reader"
-//@rewrite "<'b>(&'b mut self" => "(&mut self" R6
-//@rewrite "Result<Box<dyn ValueReader<'b, E> + 'b>, VErr> where E: 'b," => "Result<ValueReaderSlice, VErr>" R6
-//@rewrite "Ok(Box::new(ValueReaderSlice { _phantom: PhantomData," => "Ok((ValueReaderSlice {" R6
-//@rewrite "Cursor::new( self .cursor .get_ref() .get(start as usize..end as usize) .ok_or(verr())?, ), }))" => "AbsCursor::new_from(opt_ok_or(self.cursor.get_range(start as usize, end as usize))?), }))" R7
-//@ret r
-//@spec
-		requires old(self).wf()
-		ensures final(self).wf(), final(self).cursor.data@ == old(self).cursor.data@, final(self).len == old(self).len,
-			r is Ok <==> length <= old(self).rest(),
-			r is Err ==> final(self).cursor.pos == old(self).cursor.pos,
-			r is Ok ==> final(self).cursor.pos == old(self).cursor.pos + length && r.unwrap().wf() && r.unwrap().len == length && r.unwrap().cursor.pos == 0
-				&& r.unwrap().cursor.data@ == old(self).cursor.data@.subrange(old(self).cursor.pos as int, old(self).cursor.pos + length),
-//@end
-//@extract fn file="versatiles_core/src/io/value_reader.rs" scope="trait ValueReader<'a, E: ByteOrder + 'a>" name="get_pbf_sub_reader"
-//@rewrite "<'b>(&'b mut self" => "(&mut self" R6
-//@rewrite "Result<Box<dyn ValueReader<'b, E> + 'b>, VErr> where E: 'b," => "Result<ValueReaderSlice, VErr>" R6
-//@ret r
-//@spec
-		requires old(self).wf()
-		ensures final(self).wf(), final(self).cursor.data@ == old(self).cursor.data@, final(self).len == old(self).len,
-			r is Ok ==> r.unwrap().wf() && r.unwrap().cursor.pos == 0 && r.unwrap().len <= old(self).rest(),
-//@end
-//@extract fn file="versatiles_core/src/io/value_reader.rs" scope="trait ValueReader<'a, E: ByteOrder + 'a>" name="read_pbf_packed_uint32"
-//@rewrite "drop(reader);" => "" R7
-//@ret r
-//@spec
-		requires old(self).wf()
-		ensures final(self).wf(), final(self).cursor.data@ == old(self).cursor.data@, final(self).len == old(self).len,
-			// resource bound (C19): one value per input byte at most
-			r is Ok ==> r.unwrap()@.len() <= old(self).rest(),
-//@at "let mut values = Vec::new();"
-		let ghost sublen = reader.len as int;
-//@loop 1
-			invariant reader.wf(), reader.len == sublen, values@.len() <= reader.cursor.pos, sublen <= old(self).rest(),
-				self.wf(), self.cursor.data@ == old(self).cursor.data@, self.len == old(self).len,
-			decreases reader.len - reader.cursor.pos
-//@end
-//@extract fn file="versatiles_core/src/io/value_reader.rs" scope="trait ValueReader<'a, E: ByteOrder + 'a>" name="read_blob"
-//@rewrite "let mut blob = Blob::new_sized(length as usize); self.get_reader().read_exact(blob.as_mut_slice())?;" => "let blob = Blob::from_vec(self.cursor.read_exact_n(length as usize)?);" R7
-//@ret r
-//@spec
-		requires old(self).wf()
-		ensures final(self).cursor.data@ == old(self).cursor.data@, final(self).len == old(self).len,
-			r is Ok ==> final(self).wf() && final(self).cursor.pos == old(self).cursor.pos + length
-				&& r.unwrap()@ == old(self).cursor.data@.subrange(old(self).cursor.pos as int, old(self).cursor.pos + length),
-			r is Err ==> final(self).wf(),
-//@at "let blob = Blob::from_vec"
-		// resource obligation (C19): the announced length is allocated, so it must not exceed the remaining input
-		proof { assert(length <= self.len - self.cursor.pos); }
-//@end
-//@extract fn file="versatiles_core/src/io/value_reader.rs" scope="trait ValueReader<'a, E: ByteOrder + 'a>" name="read_string"
-//@rewrite "let mut vec = vec![0u8; length as usize]; self.get_reader().read_exact(&mut vec)?;" => "let vec = self.cursor.read_exact_n(length as usize)?;" R7
-//@rewrite "Ok(String::from_utf8(vec)?)" => "Ok(string_from_utf8(vec)?)" R7
-//@ret r
-//@spec
-		requires old(self).wf()
-		ensures final(self).cursor.data@ == old(self).cursor.data@, final(self).len == old(self).len,
-			r is Ok ==> final(self).wf() && final(self).cursor.pos == old(self).cursor.pos + length
-				&& str_bytes(r.unwrap()) == old(self).cursor.data@.subrange(old(self).cursor.pos as int, old(self).cursor.pos + length),
-			r is Err ==> final(self).wf(),
-//@at "let vec = self.cursor.read_exact_n"
-		proof { assert(length <= self.len - self.cursor.pos); }
-//@end
-//@extract fn file="versatiles_core/src/io/value_reader.rs" scope="trait ValueReader<'a, E: ByteOrder + 'a>" name="read_pbf_string"
-//@ret r
-//@spec
-		requires old(self).wf()
-		ensures final(self).wf(), final(self).cursor.data@ == old(self).cursor.data@, final(self).len == old(self).len,
-//@end
-//@extract fn file="versatiles_core/src/io/value_reader.rs" scope="trait ValueReader<'a, E: ByteOrder + 'a>" name="read_pbf_blob"
-//@ret r
-//@spec
-		requires old(self).wf()
-		ensures final(self).wf(), final(self).cursor.data@ == old(self).cursor.data@, final(self).len == old(self).len,
-//@end
-}
-
-// R6: Blob / String as byte sequences
-#[verifier::external_body]
-pub struct Blob { v: Vec<u8> }
-impl View for Blob { type V = Seq<u8>; uninterp spec fn view(&self) -> Seq<u8>; }
-impl Blob {
-	#[verifier::external_body]
-	pub fn from_vec(v: Vec<u8>) -> (r: Blob) ensures r@ == v@ { unimplemented!() }
-}
-pub uninterp spec fn str_bytes(s: String) -> Seq<u8>;
-// trusted: String::from_utf8 keeps the bytes or fails
-#[verifier::external_body]
-pub fn string_from_utf8(v: Vec<u8>) -> (r: Result<String, VErr>) ensures r is Ok ==> str_bytes(r.unwrap()) == v@ { unimplemented!() }
-
-// ---- writer (R7: self.get_writer().write_all(&[b]) -> self.sink.put(b))
-pub struct ValueWriterBlob { pub sink: ByteSink }
-impl ValueWriterBlob {
-//@extract fn file="versatiles_core/src/io/value_writer.rs" scope="trait ValueWriter<E: ByteOrder>" name="write_varint"
-//@rewrite "self.get_writer().write_all(&[((value as u8) & 0x7F) | 0x80])" => "self.sink.put(((value as u8) & 0x7F) | 0x80)" R7
-//@rewrite "self.get_writer().write_all(&[value as u8])" => "self.sink.put(value as u8)" R7
-//@ret r
-//@spec
-		ensures r is Ok, final(self).sink.buf@ == old(self).sink.buf@ + enc(value as nat)
-//@at "while value >= 0x80"
-		let ghost v0 = value;
-		let ghost pre = self.sink.buf@;
-//@loop 1
-			invariant self.sink.buf@ + enc(value as nat) == pre + enc(v0 as nat)
-			decreases value
-//@at "self.sink.put(((value as u8) & 0x7F) | 0x80)?;"
-			proof {
-				assert(((value as u8) & 0x7F) | 0x80 == ((value % 128) + 128) as u8) by (bit_vector);
-				assert(value >> 7 == value / 128) by (bit_vector);
-				assert(enc(value as nat) == seq![((value as nat % 128) + 128) as u8] + enc(value as nat / 128));
-			}
-//@after "value >>= 7;"
-			proof { assert(self.sink.buf@ + enc(value as nat) =~= pre + enc(v0 as nat)); }
-//@after "self.sink.put(value as u8)?;"
-		proof { assert(enc(value as nat) == seq![value as u8]); assert(self.sink.buf@ =~= pre + enc(v0 as nat)); }
-//@end
-//@extract fn file="versatiles_core/src/io/value_writer.rs" scope="trait ValueWriter<E: ByteOrder>" name="write_svarint"
-//@ret r
-//@spec
-		ensures r is Ok, final(self).sink.buf@ == old(self).sink.buf@ + enc(zigzag(value) as nat)
-//@end
-//@extract fn file="versatiles_core/src/io/value_writer.rs" scope="trait ValueWriter<E: ByteOrder>" name="write_pbf_key"
-//@ret r
-//@spec
-		ensures r is Ok, final(self).sink.buf@ == old(self).sink.buf@ + enc((field_number as nat) * 8 + (wire_type as nat % 8) ) || wire_type >= 8
-//@at "self .write_varint"
-		proof { assert(wire_type < 8 ==> (((field_number as u64) << 3) | (wire_type as u64)) == (field_number as u64) * 8 + (wire_type as u64)) by (bit_vector); }
-//@end
-}
-
-// zigzag is a bijection i64 <-> u64 (the sint64 wire encoding)
-pub proof fn lemma_zigzag_roundtrip(v: i64) ensures unzigzag(zigzag(v)) == v
-{ assert(({ let u = ((v << 1) ^ (v >> 63)) as u64; ((u >> 1) as i64) ^ (if u & 1 == 1 { -1i64 } else { 0i64 }) }) == v) by (bit_vector); }
-pub proof fn lemma_unzigzag_roundtrip(u: u64) ensures zigzag(unzigzag(u)) == u
-{ assert(({ let v = ((u >> 1) as i64) ^ (if u & 1 == 1 { -1i64 } else { 0i64 }); ((v << 1) ^ (v >> 63)) as u64 }) == u) by (bit_vector); }
-// small values: the arithmetic reading of the mapping (0 -> 0, -1 -> 1, 1 -> 2, -2 -> 3, ...)
-pub proof fn lemma_zigzag_examples() ensures zigzag(0i64) == 0, zigzag(-1i64) == 1, zigzag(1i64) == 2, zigzag(-2i64) == 3, zigzag(i64::MAX) == u64::MAX - 1, zigzag(i64::MIN) == u64::MAX
-{
-	assert(((0i64 << 1) ^ (0i64 >> 63)) as u64 == 0u64) by (bit_vector);
-	assert(((-1i64 << 1) ^ (-1i64 >> 63)) as u64 == 1u64) by (bit_vector);
-	assert(((1i64 << 1) ^ (1i64 >> 63)) as u64 == 2u64) by (bit_vector);
-	assert(((-2i64 << 1) ^ (-2i64 >> 63)) as u64 == 3u64) by (bit_vector);
-	assert(((0x7fff_ffff_ffff_ffffi64 << 1) ^ (0x7fff_ffff_ffff_ffffi64 >> 63)) as u64 == 0xffff_ffff_ffff_fffeu64) by (bit_vector);
-	assert(((-0x8000_0000_0000_0000i64 << 1) ^ (-0x8000_0000_0000_0000i64 >> 63)) as u64 == 0xffff_ffff_ffff_ffffu64) by (bit_vector);
-}
+//@include common/pbf_spec.vrs
+//@include common/pbf_blob.vrs
+//@include common/pbf_reader.vrs
+//@include common/pbf_writer.vrs
 } // verus!
 fn main() {}
